@@ -161,7 +161,7 @@ struct SolverStub
 static inline Prod c05_dot(const SVectorBase<R>& row, bool x_is_kernel_result)
 {
    Prod p; p.neg = false;
-   if(row.kind == V_LPROW && row.src == g_dot_src && !row.neg && x_is_kernel_result) { g_dot_hits++; p.t = v_dot; }
+   if(row.kind == V_LPROW && row.src == g_dot_src && !row.neg && x_is_kernel_result) { g_dot_hits = 1; p.t = v_dot; }
    else p.t = nondet_ll();
    return p;
 }
